@@ -665,18 +665,17 @@ func singletonRound(c *mon.Case, ng int) {
 			return s
 		},
 	}
-	ng = 16
+	// two goroutines per first-use operation, so that every process-wide singleton is raced in every process
+	ng = 2 * len(firsts)
 	outs := make([][]byte, ng)
 	pan := make([]string, ng)
 	var wg, ready sync.WaitGroup
 	start := make(chan struct{})
 	ready.Add(ng)
 	pick := make([]int, ng)
+	rot := c.R.Intn(len(firsts))
 	for g := range pick {
-		pick[g] = c.R.Intn(len(firsts))
-		if g%3 == 0 {
-			pick[g] = pick[0]
-		}
+		pick[g] = (g + rot) % len(firsts)
 	}
 	for g := 0; g < ng; g++ {
 		wg.Add(1)
